@@ -53,6 +53,17 @@ built-in operator on the two (promoted) representation types.
   exponent 0) is the elastic number `elastic_integer<digits T, set_width_t<T, width N>>` of exponent 0 — `T`'s own
   signedness, so a negative `int` against an unsigned narrowest type keeps its value; exactness again by C05.  With a
   non-zero exponent the built-in operand is first scaled in its own promoted type: by correspondence only.
+* `ww_add_sub_exact`, `ww_mul_exact` — `scaled_integer<wide_integer<D, N>, power<e, ρ>>` over MULTI-WORD storage (any limb
+  width and count, any radix `ρ`, any exponents): whenever the power `ρ^d`, the aligned operands `rep · ρ^d` (`d` = own
+  exponent minus the smaller one — a power of the **radix**, not of two) and the exact sum / difference / product fit the
+  two's-complement storage, the result is exactly that, in `wide_integer<max(D1, D2), N>` at the exponent
+  `min eL eR` (`eL + eR` for `*`).  (That the limb routines of `uintwide_t` are arithmetic modulo `2^(limbs·width)` is
+  C10's theorem; operands of different limb counts are outside the model.)
+* `constant_operand_signed`, `constant_operand_right/left` — a `cnl::constant<V>` next to a scaled_integer of ANY
+  representation (unsigned ones included) becomes a scaled_integer over a **signed** built-in integer holding `V`
+  exactly (`rep · 2^e = V`), and the operator is the one between the two scaled_integers: exactness is then
+  `add_sub_exact` / `mul_exact` above with that signed right/left type.  Elastic representations next to a constant
+  (`ScaledReps.binCE`): by correspondence only.
 -/
 namespace Cnl.C01
 open Cnl Cnl.Spec Cnl.Layered Cnl.ScaledP
@@ -376,5 +387,60 @@ example : ScaledReps.binOE .sat .sub ⟨10, u32, -4, 5⟩ ⟨10, u32, -4, 600⟩
 example : ScaledReps.binOpB u32 .add (.es ⟨40, u32, -8, 1000000000000⟩) (.builtin i32 (-3))
     = .ok ⟨41, i32, -8, 999999999232⟩ := by decide
 example : ScaledReps.binOpB u8 .mul (.builtin i8 (-3)) (.es ⟨12, u8, 0, 4000⟩) = .ok ⟨19, i8, 0, -12000⟩ := by decide
+
+/-! ### multi-word wide_integer representations, `constant<V>` operands -/
+
+open Cnl.ScaledReps Cnl.ScaledRepsP in
+/-- `+ -` over multi-word `wide_integer` storage `f`: alignment multiplies by `ρ^d` and the result is exact whenever powers,
+aligned operands and result fit the storage -/
+theorem ww_add_sub_exact (op : BinOp) (hop : op = .add ∨ op = .sub) (ρ : Nat) (x y : WNum) (f : Wide.Fmt) (hN : 1 ≤ f.N)
+    (hx : wFmt x.digits x.narrowest = some f) (hy : wFmt y.digits y.narrowest = some f) (hn : x.narrowest = y.narrowest)
+    (a b : Int)
+    (ha : a = x.value * (ρ : Int)^(x.exp - min x.exp y.exp).toNat) (hb : b = y.value * (ρ : Int)^(y.exp - min x.exp y.exp).toNat)
+    (hpa : InBits f.N f.signed ((ρ : Int)^(x.exp - min x.exp y.exp).toNat))
+    (hpb : InBits f.N f.signed ((ρ : Int)^(y.exp - min x.exp y.exp).toNat))
+    (hfa : InBits f.N f.signed a) (hfb : InBits f.N f.signed b)
+    (hr : InBits f.N f.signed (if op = .add then a + b else a - b)) :
+    wwBin ρ op x y = .ok ⟨max x.digits y.digits, x.narrowest, min x.exp y.exp, if op = .add then a + b else a - b⟩ :=
+  wwBin_add_sub_exact op hop ρ x y f hN hx hy hn a b ha hb hpa hpb hfa hfb hr
+
+open Cnl.ScaledReps Cnl.ScaledRepsP in
+theorem ww_mul_exact (ρ : Nat) (x y : WNum) (f : Wide.Fmt) (hN : 1 ≤ f.N)
+    (hx : wFmt x.digits x.narrowest = some f) (hy : wFmt y.digits y.narrowest = some f) (hn : x.narrowest = y.narrowest)
+    (hr : InBits f.N f.signed (x.value * y.value)) :
+    wwBin ρ .mul x y = .ok ⟨max x.digits y.digits, x.narrowest, x.exp + y.exp, x.value * y.value⟩ :=
+  wwBin_mul_exact ρ x y f hN hx hy hn hr
+
+open Cnl.ScaledReps Cnl.ScaledRepsP in
+/-- whatever the representation of the scaled_integer next to it, a `constant<V>` is a scaled_integer over a signed
+built-in integer, of radix 2, holding `V` exactly -/
+theorem constant_operand_signed (v : Int) (c : Num) (h : constNum v = .ok c) :
+    ∃ t e, c.1 = .sc (.int t) (e : Nat) 2 ∧ t.signed = true ∧ c.2 * (2 : Int)^e = v :=
+  constNum_signed v c h
+
+open Cnl.ScaledReps in
+theorem constant_operand_right (op : BinOp) (x : Num) (v : Int) (c : Num) (h : constNum v = .ok c) :
+    binC op false x v = Layered.bin op x c := by
+  simp [binC, h, bind, Res.bind]
+
+open Cnl.ScaledReps in
+theorem constant_operand_left (op : BinOp) (x : Num) (v : Int) (c : Num) (h : constNum v = .ok c) :
+    binC op true x v = Layered.bin op c x := by
+  simp [binC, h, bind, Res.bind]
+
+-- non-vacuity: 3.25 + 1.5 in decimal fixed point over wide_integer<200> (7 limbs of 32 bits): 325·10^2 + 15000 at 10^-4
+example : ScaledReps.wFmt 200 i32 = some ⟨32, 7, true⟩ := by decide
+example : ScaledReps.wwBin 10 .add ⟨200, i32, -2, 325⟩ ⟨200, i32, -4, 15000⟩ = .ok ⟨200, i32, -4, 47500⟩ := by decide +kernel
+example : ScaledRepsP.InBits 224 true ((10 : Int)^2) ∧ ScaledRepsP.InBits 224 true (325 * (10 : Int)^2) ∧ ScaledRepsP.InBits 224 true 47500 := by
+  decide +kernel
+-- beyond the storage the result wraps (outside the hypotheses): 2^223 + 2^223 in 224 bits
+example : ScaledReps.wwBin 2 .add ⟨223, i32, 0, 2^222⟩ ⟨223, i32, 0, 2^222⟩ = .ok ⟨223, i32, 0, -(2^223)⟩ := by decide +kernel
+-- scaled_integer<uint8_t, power<-4>>{1.5} + constant<-3>: the int -24 at exponent -4, i.e. -1.5
+example : ScaledReps.constNum (-3) = .ok (.sc (.int i32) 0 2, -3) := by decide +kernel
+example : ScaledReps.binC .add false (.sc (.int u8) (-4) 2, 24) (-3) = .ok (.sc (.int i32) (-4) 2, -24) := by decide +kernel
+example : ScaledReps.binC .sub true (.sc (.int u16) (-8) 2, 512) 1 = .ok (.sc (.int i32) (-8) 2, -256) := by decide +kernel
+example : ScaledReps.constNum (-40) = .ok (.sc (.int i32) 3 2, -5) := by decide +kernel
+-- elastic_integer<10, unsigned> at exponent -4 plus constant<-3> (correspondence only)
+example : ScaledReps.binCE .add false ⟨10, u32, -4, 5⟩ (-3) = .ok ⟨32, i32, -4, -43⟩ := by decide +kernel
 
 end Cnl.C01
